@@ -48,12 +48,13 @@ REF = ("native", "", "plain")
 CHUNK = 64
 # family -> (quick ranges, thorough ranges)
 RANGES = {
-    "stream": ([(0, 640)], [(0, 1100)]),
-    "aead": ([(0, 600)], [(0, 1100)]),
-    "aesgcm": ([(0, 600)], [(0, 1100)]),
-    "secretbox": ([(0, 600)], [(0, 1100)]),
-    "hash": ([(0, 300)], [(0, 600)]),
-    "secretstream": ([(0, 600)], [(0, 1100)]),
+    # (the short windows around 4096 / 16384: counter-byte carries and many SIMD batches)
+    "stream": ([(0, 640), (4090, 4102)], [(0, 1100), (4080, 4120), (16380, 16390)]),
+    "aead": ([(0, 600), (4090, 4102)], [(0, 1100), (4080, 4120), (16380, 16390)]),
+    "aesgcm": ([(0, 600), (4060, 4102)], [(0, 1100), (4050, 4120), (16380, 16390)]),
+    "secretbox": ([(0, 600), (4094, 4099)], [(0, 1100), (4080, 4120)]),
+    "hash": ([(0, 300), (4094, 4099)], [(0, 600), (4080, 4120)]),
+    "secretstream": ([(0, 600), (4094, 4099)], [(0, 1100), (4080, 4120)]),
     "sign": ([(0, 200)], [(0, 400)]),
     "codec": ([(0, 120)], [(0, 400)]),
     "pad": ([(0, 100)], [(0, 300)]),
